@@ -380,28 +380,90 @@ theorem decodes_unpackName_deep {msg : Bytes} {off : Nat} {ls : List Bytes} {d e
   exact unpackLoop_of_decodes_deep hd (ls.length + d + 1) 0 [] off (by simpa using hlen) (by omega)
     (by omega) (by omega)
 
+/-! ## `compressionDepth` counts the pointers of a `Decodes` chain -/
+
+theorem labels_le_text : ∀ (ls : List Bytes), LabelsOK ls → 2 * ls.length ≤ (textOf ls).length := by
+  intro ls
+  induction ls with
+  | nil => intro _; simp
+  | cons l ls ih =>
+    intro hok
+    have := (hok l (by simp)).1
+    have := ih (fun x hx => hok x (by simp [hx]))
+    simp [textOf]; omega
+
+theorem depthLoop_of_decodes {buf : Bytes} {off : Nat} {ls : List Bytes} {d e : Nat}
+    (hd : Decodes buf off ls d e) :
+    ∀ (fuel acc : Nat), ls.length + d < fuel → acc + d ≤ 10 → depthLoop buf fuel off acc = acc + d := by
+  induction hd with
+  | nil h =>
+    intro fuel acc hf _
+    cases fuel with
+    | zero => omega
+    | succ fuel => simp [depthLoop, h]
+  | @label off l ls d e rest h hl _ ih =>
+    intro fuel acc hf hacc
+    cases fuel with
+    | zero => omega
+    | succ fuel =>
+      rcases hl with ⟨h0, h64, _⟩
+      unfold depthLoop
+      simp only [h]
+      have h1 : l.length / 64 = 0 := by omega
+      have h2 : ¬ l.length = 0 := by omega
+      simp only [h1, h2, if_true, if_false]
+      exact ih fuel acc (by simp at hf; omega) hacc
+  | @ptr off p ls d e rest h hp _ ih =>
+    intro fuel acc hf hacc
+    cases fuel with
+    | zero => omega
+    | succ fuel =>
+      unfold depthLoop
+      simp only [h]
+      have h1 : ¬ (192 + p / 256) / 64 = 0 := by omega
+      have h2 : (192 + p / 256) / 64 = 3 := by omega
+      have h4 : (192 + p / 256) % 64 * 256 + p % 256 = p := by omega
+      simp only [h2, h4, Nat.reduceEqDiff, reduceIte]
+      by_cases hcap : acc + 1 ≥ 10
+      · simp [hcap]; omega
+      · simp only [hcap, if_false]
+        rw [ih fuel (acc + 1) (by omega) (by omega)]
+        omega
+
+/-- On a name that decodes with `d ≤ 10` pointers, within the name length limit,
+`compressionDepth` is `d`. -/
+theorem compressionDepth_of_decodes {buf : Bytes} {off : Nat} {ls : List Bytes} {d e : Nat}
+    (hd : Decodes buf off ls d e) (hok : LabelsOK ls) (hlen : (textOf ls).length ≤ 254) (h10 : d ≤ 10) :
+    compressionDepth buf off = d := by
+  have := labels_le_text ls hok
+  have := depthLoop_of_decodes hd (11 * (buf.length + 2) + 140) 0 (by omega) (by omega)
+  simpa [compressionDepth] using this
+
 /-! ## The pack loop on label lists -/
 
-theorem packLoop_cons (pos c : Nat) (rest lab out : Bytes) (comp : Option CompMap) :
-    packLoop pos (c :: rest) lab out comp =
+theorem packLoop_cons (buf : Bytes) (c : Nat) (rest lab out : Bytes) (comp : Option CompMap) :
+    packLoop buf (c :: rest) lab out comp =
     if c = 46 then
       if lab.length ≥ 64 then .error .segTooLong
       else if lab.length = 0 then .error .zeroSegLen
-      else packLoop pos rest [] (out ++ lab.length :: lab) comp
+      else packLoop buf rest [] (out ++ lab.length :: lab) comp
     else if lab.isEmpty then
       match comp with
       | some m =>
         match lookup (c :: rest) m with
-        | some p => .ok (out ++ ptrBytes p, some m)
+        | some p =>
+          if compressionDepth (buf ++ out) p < 10 then .ok (out ++ ptrBytes p, some m)
+          else packLoop buf rest [c] out
+            (some (if buf.length + out.length ≤ 16383 then (c :: rest, buf.length + out.length) :: m else m))
         | none =>
-          packLoop pos rest [c] out
-            (some (if pos + out.length ≤ 16383 then (c :: rest, pos + out.length) :: m else m))
-      | none => packLoop pos rest [c] out none
-    else packLoop pos rest (lab ++ [c]) out comp := by
+          packLoop buf rest [c] out
+            (some (if buf.length + out.length ≤ 16383 then (c :: rest, buf.length + out.length) :: m else m))
+      | none => packLoop buf rest [c] out none
+    else packLoop buf rest (lab ++ [c]) out comp := by
   conv => lhs; unfold packLoop
   rfl
 
-theorem packLoop_mid (pos : Nat) : ∀ (l lab rest out : Bytes) (comp : Option CompMap),
+theorem packLoop_mid (pos : Bytes) : ∀ (l lab rest out : Bytes) (comp : Option CompMap),
     46 ∉ l → lab ≠ [] →
     packLoop pos (l ++ 46 :: rest) lab out comp =
       if (lab ++ l).length ≥ 64 then .error .segTooLong
@@ -425,19 +487,24 @@ theorem packLoop_mid (pos : Nat) : ∀ (l lab rest out : Bytes) (comp : Option C
     rw [ih (lab ++ [c]) rest out comp hl (by simp)]
     simp
 
+/-- the map entry a suffix may be compressed against: present, and not already stored behind
+`maxCompressionPointers` pointers -/
+def usable (buf : Bytes) (k : Bytes) (m : CompMap) : Option Nat :=
+  (lookup k m).filter (fun p => decide (compressionDepth buf p < 10))
+
 /-- `Name.pack` on a label list, compression map present (functional form of the loop). -/
-def packLabels (pos : Nat) : List Bytes → Bytes → CompMap → Bytes × CompMap
+def packLabels (buf : Bytes) : List Bytes → Bytes → CompMap → Bytes × CompMap
   | [], out, m => (out ++ [0], m)
   | l :: ls, out, m =>
-    match lookup (textOf (l :: ls)) m with
+    match usable (buf ++ out) (textOf (l :: ls)) m with
     | some p => (out ++ ptrBytes p, m)
-    | none => packLabels pos ls (out ++ l.length :: l)
-               (if pos + out.length ≤ 16383 then (textOf (l :: ls), pos + out.length) :: m else m)
+    | none => packLabels buf ls (out ++ l.length :: l)
+               (if buf.length + out.length ≤ 16383 then (textOf (l :: ls), buf.length + out.length) :: m else m)
 
-theorem packLoop_labels_some (pos : Nat) : ∀ (ls : List Bytes) (out : Bytes) (m : CompMap),
+theorem packLoop_labels_some (buf : Bytes) : ∀ (ls : List Bytes) (out : Bytes) (m : CompMap),
     LabelsOK ls →
-    packLoop pos (textOf ls) [] out (some m) =
-      .ok ((packLabels pos ls out m).1, some (packLabels pos ls out m).2) := by
+    packLoop buf (textOf ls) [] out (some m) =
+      .ok ((packLabels buf ls out m).1, some (packLabels buf ls out m).2) := by
   intro ls
   induction ls with
   | nil => intro out m _; simp [textOf, packLoop, packLabels]
@@ -452,20 +519,28 @@ theorem packLoop_labels_some (pos : Nat) : ∀ (ls : List Bytes) (out : Bytes) (
       have hc : c ≠ 46 := by intro h; apply hdot; simp [h]
       have hl' : 46 ∉ l' := by intro h; apply hdot; simp [h]
       have htext : textOf ((c :: l') :: ls) = c :: (l' ++ 46 :: textOf ls) := by simp [textOf]
-      rw [packLabels, htext]
-      unfold packLoop
-      simp only [hc, if_false, List.isEmpty_nil, if_true]
-      cases hlook : lookup (c :: (l' ++ 46 :: textOf ls)) m with
-      | some p => simp
-      | none =>
-        simp only []
-        rw [packLoop_mid pos l' [c] (textOf ls) out _ hl' (by simp)]
-        have : ¬ ([c] ++ l').length ≥ 64 := by simp at h64 ⊢; omega
-        simp only [this, if_false]
+      have h64' : ¬ ([c] ++ l').length ≥ 64 := by simp at h64 ⊢; omega
+      have hcont : packLoop buf (l' ++ 46 :: textOf ls) [c] out
+            (some (if buf.length + out.length ≤ 16383 then (c :: (l' ++ 46 :: textOf ls), buf.length + out.length) :: m else m)) =
+          .ok ((packLabels buf ls (out ++ (c :: l').length :: (c :: l'))
+              (if buf.length + out.length ≤ 16383 then (c :: (l' ++ 46 :: textOf ls), buf.length + out.length) :: m else m)).1,
+            some (packLabels buf ls (out ++ (c :: l').length :: (c :: l'))
+              (if buf.length + out.length ≤ 16383 then (c :: (l' ++ 46 :: textOf ls), buf.length + out.length) :: m else m)).2) := by
+        rw [packLoop_mid buf l' [c] (textOf ls) out _ hl' (by simp)]
+        simp only [h64', if_false]
         rw [ih _ _ hls]
         simp
+      rw [packLabels, htext, packLoop_cons]
+      simp only [hc, if_false, List.isEmpty_nil, if_true, usable]
+      cases hlook : lookup (c :: (l' ++ 46 :: textOf ls)) m with
+      | none => simp only [Option.filter]; exact hcont
+      | some p =>
+        by_cases hdep : compressionDepth (buf ++ out) p < 10
+        · simp [Option.filter, hdep]
+        · simp only [Option.filter, hdep, if_false, decide_false]
+          exact hcont
 
-theorem packLoop_labels_none (pos : Nat) : ∀ (ls : List Bytes) (out : Bytes),
+theorem packLoop_labels_none (pos : Bytes) : ∀ (ls : List Bytes) (out : Bytes),
     LabelsOK ls →
     packLoop pos (textOf ls) [] out none = .ok (out ++ encLabels ls ++ [0], none) := by
   intro ls
@@ -482,8 +557,7 @@ theorem packLoop_labels_none (pos : Nat) : ∀ (ls : List Bytes) (out : Bytes),
       have hc : c ≠ 46 := by intro h; apply hdot; simp [h]
       have hl' : 46 ∉ l' := by intro h; apply hdot; simp [h]
       have htext : textOf ((c :: l') :: ls) = c :: (l' ++ 46 :: textOf ls) := by simp [textOf]
-      rw [htext]
-      unfold packLoop
+      rw [htext, packLoop_cons]
       simp only [hc, if_false, List.isEmpty_nil, if_true]
       rw [packLoop_mid pos l' [c] (textOf ls) out _ hl' (by simp)]
       have : ¬ ([c] ++ l').length ≥ 64 := by simp at h64 ⊢; omega
@@ -492,7 +566,6 @@ theorem packLoop_labels_none (pos : Nat) : ∀ (ls : List Bytes) (out : Bytes),
       simp [encLabels]
 
 /-! ## Injectivity of the presentation form -/
-
 theorem split_at_dot : ∀ (l l' x y : Bytes), 46 ∉ l → 46 ∉ l' → l ++ 46 :: x = l' ++ 46 :: y →
     l = l' ∧ x = y := by
   intro l
@@ -534,9 +607,10 @@ theorem textOf_inj : ∀ (a b : List Bytes), LabelsOK a → LabelsOK b → textO
 
 /-! ## The compression invariant -/
 
-/-- A map entry `k ↦ p` is good for `msg`: unpacking at `p` yields the labels of `k`. -/
+/-- A map entry `k ↦ p` is good for `msg`: unpacking at `p` yields the labels of `k`, following at
+most `maxCompressionPointers` pointers. -/
 def Good (msg : Bytes) (k : Bytes) (p : Nat) : Prop :=
-  p < 16384 ∧ ∃ ls d e, k = textOf ls ∧ LabelsOK ls ∧ Decodes msg p ls d e
+  p < 16384 ∧ ∃ ls d e, k = textOf ls ∧ LabelsOK ls ∧ Decodes msg p ls d e ∧ d ≤ 10
 
 /-- "every map entry points at an offset where unpacking yields that suffix" -/
 def CompInv (msg : Bytes) (m : CompMap) : Prop := ∀ k p, lookup k m = some p → Good msg k p
@@ -545,8 +619,8 @@ def CompInvUpTo (n : Nat) (msg : Bytes) (m : CompMap) : Prop :=
   ∀ k p, k.length ≤ n → lookup k m = some p → Good msg k p
 
 theorem Good.append {msg k p} (h : Good msg k p) (ext : Bytes) : Good (msg ++ ext) k p := by
-  rcases h with ⟨hp, ls, d, e, hk, hok, hd⟩
-  exact ⟨hp, ls, d, e, hk, hok, hd.append ext⟩
+  rcases h with ⟨hp, ls, d, e, hk, hok, hd, h10⟩
+  exact ⟨hp, ls, d, e, hk, hok, hd.append ext, h10⟩
 
 theorem CompInv.append {msg m} (h : CompInv msg m) (ext : Bytes) : CompInv (msg ++ ext) m :=
   fun k p hl => (h k p hl).append ext
@@ -554,29 +628,47 @@ theorem CompInv.append {msg m} (h : CompInv msg m) (ext : Bytes) : CompInv (msg 
 theorem compInv_nil (msg : Bytes) : CompInv msg [] := by
   intro k p h; simp [lookup] at h
 
+theorem usable_some {buf k : Bytes} {m : CompMap} {p : Nat} (h : usable buf k m = some p) :
+    lookup k m = some p ∧ compressionDepth buf p < 10 := by
+  unfold usable at h
+  cases hl : lookup k m with
+  | none => rw [hl] at h; simp [Option.filter] at h
+  | some q =>
+    rw [hl] at h
+    simp only [Option.filter] at h
+    split at h
+    · rename_i hd
+      simp at h
+      subst h
+      exact ⟨rfl, by simpa using hd⟩
+    · simp at h
+
 theorem packLabels_decodes (pre : Bytes) : ∀ (ls : List Bytes) (out : Bytes) (m : CompMap),
-    LabelsOK ls → CompInvUpTo (textOf ls).length (pre ++ out) m →
-    ∃ d e x, (packLabels pre.length ls out m).1 = out ++ x ∧
-      Decodes (pre ++ out ++ x) (pre ++ out).length ls d e ∧ e = (pre ++ out ++ x).length := by
+    LabelsOK ls → (textOf ls).length ≤ 254 → CompInvUpTo (textOf ls).length (pre ++ out) m →
+    ∃ d e x, (packLabels pre ls out m).1 = out ++ x ∧
+      Decodes (pre ++ out ++ x) (pre ++ out).length ls d e ∧ e = (pre ++ out ++ x).length ∧ d ≤ 10 := by
   intro ls
   induction ls with
   | nil =>
-    intro out m _ _
-    refine ⟨0, (pre ++ out).length + 1, [0], by simp [packLabels], ?_, by simp; omega⟩
+    intro out m _ _ _
+    refine ⟨0, (pre ++ out).length + 1, [0], by simp [packLabels], ?_, by simp; omega, by omega⟩
     have := @Decodes.nil (pre ++ out ++ [0]) (pre ++ out).length [] (by simp)
     simpa using this
   | cons l ls ih =>
-    intro out m hok hinv
+    intro out m hok hlen hinv
     have hl : LabelOK l := hok l (by simp)
     have hls : LabelsOK ls := fun x hx => hok x (by simp [hx])
+    have hlen' : (textOf ls).length ≤ 254 := by simp [textOf] at hlen; omega
     rw [packLabels]
-    cases hlook : lookup (textOf (l :: ls)) m with
+    cases hlook : usable (pre ++ out) (textOf (l :: ls)) m with
     | some p =>
       simp only []
-      rcases hinv _ p (Nat.le_refl _) hlook with ⟨hp, ls', d, e, hk, hok', hd⟩
+      rcases usable_some hlook with ⟨hlk, hdep⟩
+      rcases hinv _ p (Nat.le_refl _) hlk with ⟨hp, ls', d, e, hk, hok', hd, h10⟩
       have : ls' = l :: ls := (textOf_inj _ _ hok hok' hk).symm
       subst this
-      refine ⟨d + 1, (pre ++ out).length + 2, ptrBytes p, rfl, ?_, by simp [ptrBytes]; omega⟩
+      rw [compressionDepth_of_decodes hd hok hlen h10] at hdep
+      refine ⟨d + 1, (pre ++ out).length + 2, ptrBytes p, rfl, ?_, by simp [ptrBytes]; omega, by omega⟩
       have hd' := hd.append (ptrBytes p)
       have hb : (pre ++ out ++ ptrBytes p).drop (pre ++ out).length =
           (192 + p / 256) :: (p % 256) :: [] := by
@@ -604,8 +696,8 @@ theorem packLabels_decodes (pre : Bytes) : ∀ (ls : List Bytes) (out : Bytes) (
             omega
           · exact hold hlk
         · exact hold hlk
-      rcases ih (out ++ l.length :: l) _ hls hinv' with ⟨d, e, x, hx, hd, he⟩
-      refine ⟨d, e, l.length :: l ++ x, ?_, ?_, ?_⟩
+      rcases ih (out ++ l.length :: l) _ hls hlen' hinv' with ⟨d, e, x, hx, hd, he, h10⟩
+      refine ⟨d, e, l.length :: l ++ x, ?_, ?_, ?_, h10⟩
       · rw [hx]; simp
       · have hlist : pre ++ out ++ (l.length :: l ++ x) = pre ++ (out ++ l.length :: l) ++ x := by simp
         rw [hlist]
@@ -618,19 +710,20 @@ theorem packLabels_decodes (pre : Bytes) : ∀ (ls : List Bytes) (out : Bytes) (
       · rw [he]; simp
 
 theorem packLabels_inv (pre : Bytes) : ∀ (ls : List Bytes) (out : Bytes) (m : CompMap),
-    LabelsOK ls → CompInvUpTo (textOf ls).length (pre ++ out) m →
-    ∀ k p, lookup k (packLabels pre.length ls out m).2 = some p →
-      lookup k m = some p ∨ Good (pre ++ (packLabels pre.length ls out m).1) k p := by
+    LabelsOK ls → (textOf ls).length ≤ 254 → CompInvUpTo (textOf ls).length (pre ++ out) m →
+    ∀ k p, lookup k (packLabels pre ls out m).2 = some p →
+      lookup k m = some p ∨ Good (pre ++ (packLabels pre ls out m).1) k p := by
   intro ls
   induction ls with
-  | nil => intro out m _ _ k p h; left; simpa [packLabels] using h
+  | nil => intro out m _ _ _ k p h; left; simpa [packLabels] using h
   | cons l ls ih =>
-    intro out m hok hinv k p h
+    intro out m hok hlen hinv k p h
     have hl : LabelOK l := hok l (by simp)
     have hls : LabelsOK ls := fun x hx => hok x (by simp [hx])
-    have hdec := packLabels_decodes pre (l :: ls) out m hok hinv
+    have hlen' : (textOf ls).length ≤ 254 := by simp [textOf] at hlen; omega
+    have hdec := packLabels_decodes pre (l :: ls) out m hok hlen hinv
     rw [packLabels] at h hdec ⊢
-    cases hlook : lookup (textOf (l :: ls)) m with
+    cases hlook : usable (pre ++ out) (textOf (l :: ls)) m with
     | some q => rw [hlook] at h; left; simpa using h
     | none =>
       rw [hlook] at h hdec
@@ -652,38 +745,39 @@ theorem packLabels_inv (pre : Bytes) : ∀ (ls : List Bytes) (out : Bytes) (m : 
             omega
           · exact hold hlk
         · exact hold hlk
-      rcases ih (out ++ l.length :: l) _ hls hinv' k p h with h1 | h1
+      rcases ih (out ++ l.length :: l) _ hls hlen' hinv' k p h with h1 | h1
       · split at h1
         · rename_i hpos
           simp only [lookup] at h1
           split at h1
           · rename_i heq
             right
-            rcases hdec with ⟨d, e, x, hx, hd, _⟩
+            rcases hdec with ⟨d, e, x, hx, hd, _, h10⟩
             rw [hx]
             simp only [Option.some.injEq] at h1
-            refine ⟨by omega, l :: ls, d, e, heq.symm, hok, ?_⟩
+            refine ⟨by omega, l :: ls, d, e, heq.symm, hok, ?_, h10⟩
             rw [← h1]
             simpa [List.append_assoc] using hd
           · left; exact h1
         · left; exact h1
       · right; exact h1
 
-/-- One `Name.pack` with compression preserves the invariant, and its output decodes to the name. -/
+/-- One `Name.pack` with compression preserves the invariant, and its output decodes to the name
+within the pointer budget. -/
 theorem packLabels_compInv (msg : Bytes) (ls : List Bytes) (m : CompMap)
-    (hok : LabelsOK ls) (hinv : CompInv msg m) :
-    CompInv (msg ++ (packLabels msg.length ls [] m).1) (packLabels msg.length ls [] m).2 ∧
-    ∃ d, Decodes (msg ++ (packLabels msg.length ls [] m).1) msg.length ls d
-      (msg.length + (packLabels msg.length ls [] m).1.length) := by
+    (hok : LabelsOK ls) (hlen : (textOf ls).length ≤ 254) (hinv : CompInv msg m) :
+    CompInv (msg ++ (packLabels msg ls [] m).1) (packLabels msg ls [] m).2 ∧
+    ∃ d, d ≤ 10 ∧ Decodes (msg ++ (packLabels msg ls [] m).1) msg.length ls d
+      (msg.length + (packLabels msg ls [] m).1.length) := by
   have hup : CompInvUpTo (textOf ls).length (msg ++ []) m := by
     intro k p _ h; simpa using hinv k p h
   constructor
   · intro k p h
-    rcases packLabels_inv msg ls [] m hok hup k p h with h1 | h1
+    rcases packLabels_inv msg ls [] m hok hlen hup k p h with h1 | h1
     · exact (hinv k p h1).append _
     · exact h1
-  · rcases packLabels_decodes msg ls [] m hok hup with ⟨d, e, x, hx, hd, he⟩
-    refine ⟨d, ?_⟩
+  · rcases packLabels_decodes msg ls [] m hok hlen hup with ⟨d, e, x, hx, hd, he, h10⟩
+    refine ⟨d, h10, ?_⟩
     rw [hx]
     simp only [List.append_nil, List.nil_append] at hd he ⊢
     rw [he] at hd
